@@ -163,6 +163,19 @@ def handle (op : String) (j : Json) : Option Json :=
                  ("toks", match impl with | some s => Json.arr ((lex k s).map tokJ).toArray | none => Json.null)])
     | none, _ => some (errJ "bad-kind")
     | _, none => some (errJ "bad-construct")
+  | "ident.mentions" =>
+    match kindOf (getStrD j "kind") with
+    | some k =>
+      let res := (getStrList j "reserved").map String.toList
+      let r : Str → Bool := fun n => res.contains n
+      let schema := match optStr j "schema" with
+        | some s => if s.isEmpty then none else some s
+        | none => none
+      let alts := (getArr j "alts").map (fun a => (asStrList a).map String.toList)
+      let e := (getStrD j "emitted").toList
+      some (obj [("holds", Json.bool (alts.any (fun names => mentionsRef k r schema names e))),
+                 ("toks", Json.arr ((lex k e).map tokJ).toArray)])
+    | none => some (errJ "bad-kind")
   | "ident.lex" =>
     match kindOf (getStrD j "kind") with
     | some k => some (obj [("toks", Json.arr ((lex k (getStrD j "s").toList).map tokJ).toArray)])
